@@ -384,3 +384,16 @@ func vecMergeOracleFile(path string, exp *ref.Content) string {
 	defer o.Close()
 	return vecMergeOracle(o, exp)
 }
+
+func memCloseVictim() (spec.Batch, func(segment.Segment, *ref.Content) string) {
+	b := enum.VecCase{Docs: []int{2, 6, 4}, Metric: "l2_norm"}.Batch()
+	return b, func(s segment.Segment, exp *ref.Content) string {
+		// load the vector index into the cache and leave it there (handle closed)
+		q := vecQuery{Field: "v", Q: []float32{0, 0}, K: 2}
+		got, err := search(s, q)
+		if err != nil {
+			return err.Error()
+		}
+		return checkResult(exp, q, got, true)
+	}
+}
